@@ -1354,7 +1354,9 @@ class ContinuousSpace:
             self._agent_to_index[agent] = idx
             self._index_to_agent[idx] = agent
         # Since dicts are ordered by insertion, we can iterate through agents keys
-        self._agent_points = np.array([agent.pos for agent in self._agent_to_index])
+        self._agent_points = np.array(
+            [agent.pos for agent in self._agent_to_index], dtype=float
+        )
 
     def _invalidate_agent_cache(self):
         """Clear cached data of agents and positions in the space."""
